@@ -290,7 +290,7 @@ class CallMixin:
         self._pending_fs_hooks = []
 
     def _apply_modifies(self, st, old, mods, binds):
-        for m in mods:
+        for m in (mods or []):      # modifies=None: coroutine whose effects on shared state are covered by the interference at its await
             m = clause_text(m)
             if m.startswith("*."):
                 self.havoc_heap_field(st, m[2:])
